@@ -20,7 +20,7 @@ RULE = ("one run = valid document + scheduled delivery + history of legal add/rm
 PROBES = ["settled_compare", "unsettled_skip", "cascade_ge3", "cascade_transitive", "gap_unmention",
           "rename_mentioned", "forward_reference_add", "restart_crosscheck", "group_merge",
           "fanout2_removal", "readd_removed", "model_unspecified", "anonymise_mentioned",
-          "rename_onto_mentioned", "removed_instance_added_again"]
+          "rename_onto_mentioned", "removed_instance_added_again", "rm_through_stale_handle"]
 
 
 def tag_edit(rng, rec):
@@ -150,6 +150,11 @@ def gen(streams, tier, i):
             if mm.add_text(t) in ("ok", "merged"):
                 m.add_text(t)
                 ops.append({"op": "add", "line": t, "as": hr.choice(["str", "obj"]), "readd": 1})
+                nrm = sum(1 for o_ in ops if o_["op"] == "rm")
+                if nrm and hr.random() < 0.3:
+                    # the caller still holds the object of an earlier removal and hands it to rm(): it is no line
+                    # of the Gfa (whatever carries its name now), the call is refused
+                    ops.append({"op": "rm_stale", "rmidx": hr.randrange(nrm)})
         else:
             sh = hist.Shadow(version, m.render())
             sh.reserved = set(m.all_mentions())
@@ -210,6 +215,8 @@ def model_apply(m, op, st):
             st.count("probe.rename_mentioned")
         m.rename(op["id"], op["new"])
         return "ok"
+    if k == "rm_stale":
+        return "any"
     if k == "readd_obj":
         if m.add_text(op["text"]) != "ok":
             m.unspecified = "removed line cannot be added again"
@@ -285,6 +292,18 @@ def run(scn, st):
                     if len(getattr(t, c)) >= 2:
                         st.count("probe.fanout2_removal")
                         break
+        if op["op"] == "rm_stale":
+            out = w.apply(op)
+            if out.ok and out.value == "skipped":
+                continue
+            st.count("probe.rm_through_stale_handle")
+            st.count("oracle.illegal_step_refused")
+            if out.ok:
+                raise core.Violation("illegal-step-accepted", "step %d: rm() was given the object of a line removed earlier "
+                                     "(not a line of the Gfa any more) and returned" % n, op="rm_stale")
+            if m.settled() and w.gfa.version == version:
+                compare(w, m, st, n, op)
+            continue
         if op["op"] == "readd_obj":
             if m.copy().add_text(op["text"]) != "ok":
                 continue
